@@ -26,6 +26,7 @@ import warnings
 from pathlib import Path
 
 import lib
+from translate import annot as tr_annot
 
 PROP = "C13"
 CORPUS = lib.VERIF / "harness" / "corpus" / "C13.json"
@@ -218,15 +219,14 @@ def walk(e):
 
 
 def guard_clauses(e):
+    """no guard clause is left for the routes on the repaired tree (the three divergent classes were repaired)"""
+    return []
+
+
+def form_tags(e):
+    """forms that used to diverge before the repairs of the AST route (kept in the histogram)"""
     ks = {x[0] for x in walk(e)}
-    out = []
-    if "EStarTuple" in ks:
-        out.append("has_star_unpack")
-    if "ELitNested" in ks:
-        out.append("has_nested_literal")
-    if ks & {"EFinal", "EClassVar"}:
-        out.append("has_final_classvar")
-    return out
+    return [t for t, c in (("star", "EStarTuple" in ks), ("nested_literal", "ELitNested" in ks), ("final_classvar", bool(ks & {"EFinal", "EClassVar"}))) if c]
 
 
 def evaluable(e):
@@ -327,7 +327,8 @@ def encode_value(v):
         return CODE_OF_TYPE.get(n)
 
     if isinstance(v, AnyValue):
-        return ("any",)
+        # Any[error] is what an annotation that was reported as invalid evaluates to
+        return ("err",) if v.source.name == "error" else ("any",)
     if isinstance(v, KnownValue):
         if v.val is None:
             return ("none",)
@@ -371,6 +372,11 @@ def encode_value(v):
             return ("other", str(v)[:60])
         return ("typed", c)
     return ("other", type(v).__name__ + ":" + str(v)[:60])
+
+
+def seal(c):
+    """an error anywhere is a diagnostic of the whole annotation"""
+    return ("err",) if contains(c, "err") else c
 
 
 def has_other(c):
@@ -429,7 +435,7 @@ def impl_routes(exprs_src):
             return ("crash",)
         if c.errors:
             return ("err",)
-        return encode_value(v)
+        return seal(encode_value(v))
 
     for src in exprs_src:
         r = {}
@@ -465,7 +471,15 @@ def impl_routes(exprs_src):
                 elif codes:
                     out[i][tag] = ("err",)
                 else:
-                    out[i][tag] = encode_value(v)
+                    out[i][tag] = seal(encode_value(v))
+    # an error found while evaluating a *string* annotation is reported at the position inside the
+    # string (line 1 of the module), so it cannot be attributed by line: re-run such cases alone
+    for i in ok:
+        if "*" in exprs_src[i] and out[i]["visstr"] != ("err",):
+            code = PRELUDE + f"def f(x: {exprs_src[i]!r}):\n    _v = x\n"
+            tree, errors, mod = run_visitor(code)
+            if any(e["code"].name in ("invalid_annotation", "internal_error") for e in errors):
+                out[i]["visstr"] = ("err",)
     return out
 
 
@@ -664,7 +678,7 @@ def impl_calls(headers_src, rng, d: Path, tag):
 # ---------------------------------------------------------------------------
 
 HEADER = ("From Coq Require Import NArith ZArith List Bool. Import ListNotations.\n"
-          "Require Import PV.Annot.Routes PV.Annot.DefSig.\nUnset Printing Records.")
+          "Require Import PV.Annot.Forms PV.Gen.Annot PV.Annot.Routes PV.Annot.DefSig.\nUnset Printing Records.")
 
 
 def model_routes(exprs):
@@ -694,7 +708,7 @@ def model_sigs(headers):
 
 
 def gen_files():
-    return {}
+    return {"Annot.v": tr_annot.translate(str(lib.REPO))}
 
 
 def load_corpus():
@@ -715,11 +729,20 @@ def jsonable(x):
 def run(tier: str, replay: str | None = None):
     rep = lib.Report(PROP, tier, "proof")
     rng = random.Random(lib.seed() * 7901 + 13)
-    proof = lib.prove(PROP, gen_files(), thorough=(tier == "thorough"))
-    model_ok = not any("build failed" in b for b in proof.broken)
-    if not model_ok:
-        ok, _ = lib.coq_make(["theories/Annot/DefSig.vo"])
-        model_ok = ok
+    broken_translation = None
+    proof = None
+    try:
+        gen = gen_files()
+    except tr_annot.TranslateError as ex:
+        broken_translation = str(ex)
+        gen = None
+    model_ok = False
+    if gen is not None:
+        proof = lib.prove(PROP, gen, thorough=(tier == "thorough"))
+        model_ok = not any("build failed" in b for b in proof.broken)
+        if not model_ok:
+            ok, _ = lib.coq_make(["theories/Annot/DefSig.vo"])
+            model_ok = ok
     kf = lib.load_known_findings(PROP)
     findings_text = {f["id"]: f["what"] for f in kf["findings"]}
     quick = tier == "quick"
@@ -780,7 +803,7 @@ def run(tier: str, replay: str | None = None):
         for x in walk(e):
             bump("constructors", x[0])
         clauses = guard_clauses(e)
-        bump("guard", "+".join(clauses) or "inside-guard")
+        bump("guard", "+".join(form_tags(e)) or "plain")
         if r["rt"][0] == "evalfail":
             bump("route_verdict", "not-evaluable")
             continue
@@ -795,7 +818,7 @@ def run(tier: str, replay: str | None = None):
         if agree:
             bump("route_verdict", "routes-agree")
         else:
-            fids = {"has_star_unpack": "C13-star-unpack-three-ways", "has_nested_literal": "C13-nested-literal-ast-route", "has_final_classvar": "C13-final-classvar-ast-route"}
+            fids = {"has_star_unpack": "C13-star-unpack-three-ways"}
             known = [fids[c] for c in clauses if fids[c] in findings_text]
             if known and model_agrees:
                 bump("route_verdict", "known-finding")
@@ -851,7 +874,7 @@ def run(tier: str, replay: str | None = None):
         elif exotic and model_agrees:
             bump("sig_verdict", "known-finding")
             for c in set(sum([guard_clauses(p[3]) for p in ps if p[3] is not None], [])):
-                fid = {"has_star_unpack": "C13-star-unpack-three-ways", "has_nested_literal": "C13-nested-literal-ast-route", "has_final_classvar": "C13-final-classvar-ast-route"}[c]
+                fid = {"has_star_unpack": "C13-star-unpack-three-ways"}[c]
                 if fid in findings_text:
                     rep.known(fid, findings_text[fid])
         else:
@@ -901,7 +924,9 @@ def run(tier: str, replay: str | None = None):
     if corr and not failing:
         inp, obs, mod, name = corr[0]
         rep.violation({"kind": "broken-correspondence", "correspondence": name, "input": inp, "observed": obs, "model": mod, "mismatches": len(corr)}, no_failing_input=True)
-    if not proof.ok and not failing:
+    if broken_translation and not failing:
+        rep.violation({"kind": "broken-obligation", "theorem": "Gen/Annot.v (translator)", "detail": broken_translation}, no_failing_input=True)
+    if proof is not None and not proof.ok and not failing:
         rep.violation({"kind": "broken-obligation", "theorem": "; ".join(proof.broken), "log": proof.log[-1500:]}, no_failing_input=True)
 
     rep.coverage.update(
